@@ -131,7 +131,7 @@ def check(pid, tier, deadline):
             agg.viol_by_sig[sig] = agg.viol_by_sig.get(sig, 0) + 1
             if sum(1 for v in agg.vlines if v[1] == sig) < 3:
                 agg.vlines.append(('static', sig, {'table': ser, 'grammar': G.grammar_source(ser, 'g'), 'witness_input_hex': wit,
-                                                   'witness_kind': 'left recursion' if kind == 1 else 'repetition without progress', 'analyze_problems': p}))
+                                                   'witness_kind': {1: 'left recursion', 2: 'repetition without progress', 3: 'the real code does not terminate although the documented rules do'}.get(kind, str(kind)), 'analyze_problems': p}))
     agg.evaluations += len(tables)
     agg.states += len(tables)
     agg.transitions += len(tables)
